@@ -1,11 +1,11 @@
 #!/usr/bin/env python3
 """batch.py [--props C01,C02|all] [--jobs N] [--out file.json] name=patch.diff ...
 
-Apply each patch to its own scratch copy of /repo (outside /repo and /verif, removed afterwards), extract the facts once and run
-the quick tier of the listed checks (default: all 20) against the copy, in parallel.  Prints, per patch, which checks
+Apply each patch in turn to a scratch copy of /repo at a fixed path (/tmp/vlane<N>, remove it when done), re-extract only what
+cargo considers stale and run the quick tier of the listed checks (default: all 20) against the copy, in parallel.  Prints, per patch, which checks
 report something and by which rule/key.  Used to try seeded faults (must be reported) and neutral edits (must be silent)
 against *every* check, not only the one of their own property."""
-import json, os, shutil, subprocess, sys, tempfile
+import json, os, subprocess, sys
 from concurrent.futures import ThreadPoolExecutor
 
 V = os.path.dirname(os.path.dirname(os.path.abspath(__file__)))
@@ -15,62 +15,111 @@ ALL = ["C%02d" % i for i in range(1, 21)]
 def check(pid, env):
     r = subprocess.run([sys.executable, "-m", "sa.check", pid, "--tier", "quick"], cwd=V, env=env, capture_output=True, text=True)
     keys = []
-    for ln in r.stdout.splitlines():
+    lines = r.stdout.splitlines()
+    for i, ln in enumerate(lines):
         ln = ln.strip()
         if ln.startswith("rule=") and " key=" in ln:
-            keys.append(ln.split(" key=", 1)[1])
+            keys.append(ln.split(" key=", 1)[1] + ("   ## " + lines[i + 1].strip()[:300] if i + 1 < len(lines) else ""))
     note = ""
     if r.returncode == 2:
         note = (r.stdout.strip().splitlines() or [""])[-1][:300]
     return pid, r.returncode, keys, note
 
 
-def run_patch(name, patch, props, jobs):
-    tmp = tempfile.mkdtemp(prefix="vb.", dir="/tmp")
-    work = os.path.join(tmp, "repo")
+def _touched(patch):
+    out = []
+    for ln in open(patch, errors="replace"):
+        if ln.startswith("+++ b/") or ln.startswith("--- a/"):
+            out.append(ln[6:].strip())
+    return sorted(set(out))
+
+
+_LANE_PREV = {}
+
+
+AUTO = [("net/", ["C01", "C02", "C03", "C04", "C05", "C06", "C20"]), ("huffman/", ["C07", "C05", "C06", "C15"]), ("packer/", ["C08", "C11", "C14", "C17"]),
+        ("snapshot/", ["C09", "C10", "C11", "C12", "C13", "C15"]), ("gamenet/", ["C14", "C15"]), ("demo/", ["C15"]), ("datafile/", ["C16"]),
+        ("map/", ["C16"]), ("zlib-minimal/", ["C16"]), ("teehistorian/", ["C17"]), ("serverbrowse/", ["C18"]),
+        ("buffer/", ["C19", "C06", "C07", "C08"]), ("common/", ALL), ("warn/", ALL)]
+
+
+def auto_props(patch):
+    out = []
+    for f in _touched(patch):
+        for pre, ps in AUTO:
+            if f.startswith(pre):
+                out += [p for p in ps if p not in out]
+    return out or ALL
+
+
+def run_patch(name, patch, props, jobs, lane=0):
+    if props == "auto":
+        props = auto_props(patch)
+    """one fixed scratch path per lane, so that cargo only re-checks what the patch touches (extract.lane_extract)"""
+    sys.path.insert(0, V)
+    from sa import extract
+    base = "/tmp/vlane%d" % lane
+    work, fdir, target = base + "/repo", base + "/facts", base + "/target"
+    os.makedirs(base, exist_ok=True)
     res = {"name": name, "applied": False, "reported": {}, "engine": {}}
+    src = os.environ.get("VERIF_REPO", "/repo")
+    subprocess.run(["rsync", "-a", "--delete", "--exclude", "/target", "--exclude", ".git", src + "/", work + "/"], check=True)
+    touched = _touched(patch)
+    for f in set(_LANE_PREV.get(lane, [])) | set(touched):
+        fp = os.path.join(work, f)
+        if os.path.exists(fp):
+            os.utime(fp, None)        # reverted / about to be patched: must look newer than the last build
+    _LANE_PREV[lane] = touched
+    r = subprocess.run(["git", "apply", "--whitespace=nowarn", os.path.abspath(patch)], cwd=work, capture_output=True, text=True)
+    if r.returncode != 0:
+        res["note"] = "patch does not apply: " + r.stderr.strip()[:200]
+        return res
+    res["applied"] = True
     try:
-        shutil.copytree(os.environ.get("VERIF_REPO", "/repo"), work, ignore=lambda d, n: [x for x in n if x in ("target", ".git")], symlinks=True)
-        r = subprocess.run(["git", "apply", "--whitespace=nowarn", os.path.abspath(patch)], cwd=work, capture_output=True, text=True)
-        if r.returncode != 0:
-            res["note"] = "patch does not apply: " + r.stderr.strip()[:200]
-            return res
-        res["applied"] = True
-        env = dict(os.environ, VERIF_REPO=work, VERIF_EVID_DIR=os.path.join(tmp, "evid"))
-        first = check(props[0], env)
-        rows = [first]
-        if first[1] != 2 or "extraction" not in first[3]:
-            with ThreadPoolExecutor(jobs) as ex:
-                rows += list(ex.map(lambda p: check(p, env), props[1:]))
-        for pid, rc, keys, note in rows:
-            if rc == 1:
-                res["reported"][pid] = keys
-            elif rc == 2:
-                res["engine"][pid] = note
-    finally:
-        shutil.rmtree(tmp, ignore_errors=True)
+        if not os.path.exists(fdir + "/SEEDED"):
+            # members whose fingerprints in the (copied) target are fresh are not re-checked: start from the facts of the clean tree
+            import glob, shutil
+            os.makedirs(fdir, exist_ok=True)
+            bdir, _, _ = extract.facts_dir("quick", repo=src)
+            for f in glob.glob(bdir + "/*.json"):
+                shutil.copy(f, fdir)
+            open(fdir + "/SEEDED", "w").write(bdir)
+        extract.lane_extract(work, fdir, target)
+    except extract.EngineError as e:
+        res["note"] = "does not build: " + str(e)[-300:]
+        return res
+    env = dict(os.environ, VERIF_REPO=work, VERIF_EVID_DIR=base + "/evid", VERIF_FACTS_DIR=fdir)
+    with ThreadPoolExecutor(jobs) as ex:
+        rows = list(ex.map(lambda p: check(p, env), props))
+    for pid, rc, keys, note in rows:
+        if rc == 1:
+            res["reported"][pid] = keys
+        elif rc == 2:
+            res["engine"][pid] = note
     return res
 
 
 def main():
     args = sys.argv[1:]
-    props, jobs, out = ALL, 10, None
+    props, jobs, out, lane = ALL, 10, None, 0
     items = []
     while args:
         a = args.pop(0)
         if a == "--props":
             v = args.pop(0)
-            props = ALL if v == "all" else v.split(",")
+            props = ALL if v == "all" else ("auto" if v == "auto" else v.split(","))
         elif a == "--jobs":
             jobs = int(args.pop(0))
         elif a == "--out":
             out = args.pop(0)
+        elif a == "--lane":
+            lane = int(args.pop(0))
         else:
             n, p = a.split("=", 1) if "=" in a else (os.path.basename(a), a)
             items.append((n, p))
     results = []
     for n, p in items:
-        r = run_patch(n, p, props, jobs)
+        r = run_patch(n, p, props, jobs, lane)
         results.append(r)
         rep = {k: sorted(set(x.split(" | ")[1] for x in v if " | " in x)) for k, v in r["reported"].items()}
         print("%-14s %s reported=%s%s%s" % (n, "applied" if r["applied"] else "NOT-APPLIED", rep or "{}",
